@@ -31,4 +31,6 @@ unsigned vf_fp_last(FilePersister *p) { unsigned s; return p->FilePersister::get
 unsigned vf_fp_nearest(FilePersister *p, unsigned req, unsigned last) { return p->FilePersister::find_nearest_highest_seqnum(req, last); }
 unsigned vf_fp_range(FilePersister *p, Session *s, unsigned from, unsigned to)
 { return p->FilePersister::get(from, to, *s, static_cast<bool (Session::*)(const Session::SequencePair&, Session::RetransmissionContext&)>(&VSession::rec_cb)); }
+int vf_fp_fod(FilePersister *p) { return p->_fod; }   // descriptors (inductive harness: arbitrary reachable file positions)
+int vf_fp_iod(FilePersister *p) { return p->_iod; }
 }
